@@ -1,16 +1,18 @@
 #!/usr/bin/env python3
-"""Run every registered quick check once, sequentially; print one status line per check."""
+"""Run every registered quick (or, with --thorough, thorough) check once, sequentially; print one status line per check."""
 import json, os, subprocess, sys, time
 V = os.path.dirname(os.path.dirname(os.path.abspath(__file__)))
 man = json.load(open(os.path.join(V, "MANIFEST.json")))
-only = set(sys.argv[1:])
+args = sys.argv[1:]
+thorough = "--thorough" in args
+only = set(a for a in args if not a.startswith("--"))
 bad = 0
 for c in man["checks"]:
     pid = c["property_id"]
     if only and pid not in only:
         continue
     t = time.time()
-    p = subprocess.run(c["quick_cmd"], shell=True, cwd=V, stdout=subprocess.PIPE, stderr=subprocess.STDOUT)
+    p = subprocess.run(c["thorough_cmd" if thorough else "quick_cmd"], shell=True, cwd=V, stdout=subprocess.PIPE, stderr=subprocess.STDOUT)
     out = p.stdout.decode("utf-8", "replace")
     viol = [l for l in out.split("\n") if l.startswith("VIOLATION")]
     known = sum(1 for l in out.split("\n") if l.startswith("KNOWN-FINDING"))
